@@ -1,1 +1,61 @@
+(* C04 - routine: at most one instance of the managed function executes at a time.
+   Statements only.  "For every sequence of calls, at any pace" = for every list of events of the gate-level model
+   (API sections, instances leaving their first select in either order, wake-ups, user-function returns with any
+   outcome, bookkeeping sections, clock advances, timer callbacks, WaitExited callers), plain and state variant,
+   with and without back-off.  No bound on the number of instances. *)
 From Util Require Import Common.Base Common.ListLemmas Routine.Model Routine.Proofs.
+
+(* never two instances inside the managed function *)
+Theorem c04_at_most_one_in_user : forall variant cmp ncb script es,
+  cnt in_user (insts (run repaired (init variant cmp ncb script) es)) <= 1.
+Proof. exact at_most_one_in_user. Qed.
+Print Assumptions c04_at_most_one_in_user.
+
+(* an instance enters the function only when every earlier instance has returned *)
+Theorem c04_enter_only_after_all_earlier_returned : forall variant cmp ncb script es i x,
+  let s := run repaired (init variant cmp ncb script) es in
+  nth_error (insts s) i = Some x -> in_user x = true ->
+  forall k y, k < i -> nth_error (insts s) k = Some y -> over y = true.
+Proof. exact enter_only_after_all_earlier. Qed.
+Print Assumptions c04_enter_only_after_all_earlier_returned.
+
+(* the chain: every instance waits on its predecessor's exit channel (or on nothing if it is the first), and an exit
+   channel is closed exactly when its instance has left user code, which implies that all earlier ones have *)
+Theorem c04_chain_invariant : forall variant cmp ncb script es i x,
+  let s := run repaired (init variant cmp ncb script) es in
+  nth_error (insts s) i = Some x ->
+  iwait x = pred_idx i /\ iexit x = over x /\
+  (over x = true \/ in_user x = true -> forall j y, j < i -> nth_error (insts s) j = Some y -> over y = true).
+Proof. intros v c n sc es i x s Hx. exact (proj1 (run_inv v c n sc es) i x Hx). Qed.
+Print Assumptions c04_chain_invariant.
+
+(* the channel returned by SetRoutine / SetState / SwapValue / SetStateRoutine is the exit channel of the newest
+   instance, and once it is closed that instance and all earlier ones have returned *)
+Theorem c04_wait_return_is_newest_exit_channel : forall variant cmp ncb script es f arg j,
+  let s := run repaired (init variant cmp ncb script) es in
+  fst (snd (set_routine_locked repaired s f arg)) = Some j -> S j = length (insts s).
+Proof. exact wait_return_is_newest. Qed.
+Print Assumptions c04_wait_return_is_newest_exit_channel.
+
+Theorem c04_closed_wait_return_means_all_earlier_returned : forall variant cmp ncb script es j x,
+  let s := run repaired (init variant cmp ncb script) es in
+  nth_error (insts s) j = Some x -> iexit x = true ->
+  forall k y, k <= j -> nth_error (insts s) k = Some y -> over y = true.
+Proof. exact closed_exit_all_earlier_over. Qed.
+Print Assumptions c04_closed_wait_return_means_all_earlier_returned.
+
+(* historical: the pinned code (before the fix: commits D2 and D3) ran two instances at once *)
+Theorem c04_pinned_d2_refuted : cnt in_user (insts (run pinned_d2 (init false 1 1 None) d2_witness)) = 2.
+Proof. exact d2_refuted. Qed.
+Theorem c04_pinned_d3_refuted : cnt in_user (insts (run pinned_d3 (init false 1 1 None) d3_witness)) = 2.
+Proof. exact d3_refuted. Qed.
+
+(* non-vacuity: the repaired model on the D2 schedule: the third instance waits (blocked) while the first still runs *)
+Example c04_example_chain :
+  let s := run repaired (init false 1 1 None) d2_witness in
+  cnt in_user (insts s) = 1 /\ length (insts s) = 3 /\ ipcv (geti s 1) = IWaitC /\ ipcv (geti s 2) = IWait.
+Proof. vm_compute. repeat split; reflexivity. Qed.
+Example c04_example_handover :
+  let s := run repaired (init false 1 1 None) (d2_witness ++ [EReturn 0 OCanc; EWake 1 true; EWake 2 true]) in
+  cnt in_user (insts s) = 1 /\ in_user (geti s 2) = true /\ over (geti s 0) = true /\ over (geti s 1) = true.
+Proof. vm_compute. repeat split; reflexivity. Qed.
